@@ -4,6 +4,7 @@ ground flags (Pulse.ground, Pulse.inv_ground, Pulse_Container.ground / inv_groun
 by a literal index must select the other half in the same statement too - a one-sided test
 (`ground[0]` without `ground[1]`) silently drops wires drawn towards the ground."""
 import ast
+import re
 from ..model import norm, dotted, walk_no_nested, parent, enclosing_stmt
 
 GROUND_ATTRS = ('ground', 'inv_ground')
@@ -44,7 +45,7 @@ def _half_literal(sub):
     return None
 
 
-def ground_half_selections(func):
+def ground_half_selections(func, swap_inv=False):
     """[(stmt, half, node)] for literal half selections on ground-family arrays in func"""
     aliases = set()
     for _ in range(2):
@@ -53,11 +54,32 @@ def ground_half_selections(func):
                 if _ground_base(s.value, aliases):
                     aliases.add(s.targets[0].id)
     out = []
+
+    def is_inv(e):
+        while isinstance(e, (ast.Attribute, ast.Subscript, ast.Call, ast.UnaryOp)):
+            if isinstance(e, ast.Attribute):
+                if e.attr in ('inv_ground', 'matrix_inv_ground'):
+                    return True
+                if e.attr == 'T':
+                    e = e.value
+                    continue
+                return False
+            if isinstance(e, ast.Subscript):
+                e = e.value
+            elif isinstance(e, ast.Call):
+                if not e.args:
+                    return False
+                e = e.args[0]
+            else:
+                e = e.operand
+        return False
     for n in walk_no_nested(func.node):
         if isinstance(n, ast.Subscript) and _ground_base(n.value, aliases):
             h = _half_literal(n)
             if h is not None:
                 st = enclosing_stmt(n)
+                if swap_inv and is_inv(n.value):
+                    h = 1 - h       # inv_ground[h] is ground[1 - h]: the same flag under its other name
                 out.append((st, h, n))
         # flags.any() / flags.all() / np.any(flags): a reduction over both halves at once
         if isinstance(n, ast.Call):
@@ -77,8 +99,12 @@ def check_ground_symmetry(ctx, ck, rule='R-SYM.ground-halves'):
     m = ctx.model
     n_sel = 0
     n_stmt = 0
+    # inv_ground is ground with its halves exchanged (confirmed on the tree: `inv_ground = [ground[1], ground[0]]`)
+    swap_inv = any(isinstance(s_, ast.Assign) and any(isinstance(t_, ast.Attribute) and t_.attr == 'inv_ground' for t_ in s_.targets)
+                   and re.search(r'\[self\.ground\[1\], self\.ground\[0\]\]', norm(s_.value))
+                   for f_ in m.all_funcs() for s_ in walk_no_nested(f_.node))
     for f in sorted(m.all_funcs(), key=lambda x: x.qual):
-        sels = ground_half_selections(f)
+        sels = ground_half_selections(f, swap_inv)
         by_stmt = {}
         for st, h, node in sels:
             by_stmt.setdefault(id(st), [st, set(), node])[1].add(h)
